@@ -833,6 +833,15 @@ def child_span(F, rep, rule="CHILD-SPAN"):
                     lets[b["hid"]] = st["init"]
         for lp in nodes(body, "ForLoop"):
             bound = {b["hid"]: b["name"] for b in pat_bindings(lp["pat"])}
+            # .. and other names for the same elements (`let (key, expr) = (name, initialiser)`)
+            fl_ = fl_ if "fl_" in dir() and fl_.fn is fn else Flow(fn, body)
+            for st in nodes(lp["body"], "Let"):
+                for b in pat_bindings(st["pat"]):
+                    o = fl_.origin.get(b["hid"])
+                    if o and o["kind"] == "let" and o.get("path") == () and o.get("src") is not None:
+                        sx = peel(o["src"])
+                        if sx.get("k") == "Path" and sx.get("hid") in bound:
+                            bound[b["hid"]] = b["name"]
             # the child: a loop variable handed to self.expression(..) whose type lands in a local
             kids = {}
             for st in nodes(lp["body"], "Let"):
